@@ -38,14 +38,18 @@ def search_inputs(seed, n):
         # and a sub-tree inside it: a location two levels down
         deep = [port(g, rng.choice(["y", "a", "ab", "q/"]), treegen.meta_bytes(rng.choice(metas) or [])) for _ in range(rng.randint(1, 3))]
         kids.insert(rng.randrange(len(kids) + 1), port(g, "deep/", [], dict(dflt=False, ports=deep)))
-        ports.insert(rng.randrange(len(ports) + 1), port(g, "sub/", [], dict(dflt=False, ports=kids)))
+        subname = "m/sub/" if i % 3 == 2 else "sub/"          # a third of the tables: the sub-tree port's own name has two path components
+        ports.insert(rng.randrange(len(ports) + 1), port(g, subname, [], dict(dflt=False, ports=kids)))
         tb = dict(dflt=False, ports=ports)
         qs = []
-        for loc in ("", "/", "/sub/", "/sub/deep/"):
+        for loc, nchild in (("", len(ports)), ("/", len(ports)), ("/" + subname, len(kids)), ("/" + subname + "deep/", len(deep))):
             for needle in ("", "a", "ab", "a/", "b", "y", "zz", "c/"):
                 for opt in (0, 1, 2):
                     if rng.random() < 0.5:
-                        qs.append(dict(loc=[ord(c) for c in loc], needle=[ord(c) for c in needle], opt=opt, with_query=rng.random() < 0.3))
+                        q = dict(loc=[ord(c) for c in loc], needle=[ord(c) for c in needle], opt=opt, with_query=rng.random() < 0.3)
+                        if rng.random() < 0.4:
+                            q["max"] = nchild                  # the documented size: the number of child ports at that location
+                        qs.append(q)
         out.append(dict(table=tb, queries=qs))
     return out
 
@@ -111,7 +115,7 @@ def judge(ctx, log, mode):
             ctx.evaluations += len(r["queries"])
             ctx.nontrivial.add(tname(r["table"]))
             for c in rej.get(i, []):
-                ctx.reject(dict(clause=c, table=tname(r["table"])), dict(mode="search", table=r["table"], queries=[dict(loc=q["loc"], needle=q["needle"], opt=q["opt"], with_query=q["with_query"]) for q in r["queries"]]),
+                ctx.reject(dict(clause=c, table=tname(r["table"])), dict(mode="search", table=r["table"], queries=[{k2: q[k2] for k2 in ("loc", "needle", "opt", "with_query", "max") if k2 in q} for q in r["queries"]]),
                            "clause %s fails for a child search on table %s %s" % (c, tname(r["table"]), r.get("asan_what", "")))
     if recs:
         r = recs[len(recs) // 3]
